@@ -136,6 +136,12 @@ func GenerateReject(t *rapid.T, px string) (bad, control gobatch.Program, kind s
 	if len(rare) > 0 && g.Chance(3, 4, "bad-prefer-rare") {
 		kind = rare[g.Pick(len(rare), "bad-rare-kind")]
 	}
+	for _, k := range kinds {
+		if (k == "ambiguous-selector" || k == "ambiguous-embedded-field") && g.Chance(1, 2, "bad-prefer-ambiguous") {
+			kind = k
+			break
+		}
+	}
 	var of []badSite
 	for _, s := range sites {
 		if s.kind == kind {
